@@ -1,6 +1,6 @@
 (* C13 -- Results do not depend on the memory layout or ownership of any array argument. *)
 From Coq Require Import List Bool Arith ZArith.
-From NI Require Import Num Base Entry EntryProofs.
+From NI Require Import Num Base Entry EntryProofs InputLayout.
 Import ListNotations.
 
 (* output buffers: for EVERY offset and stride vector that addresses distinct cells for distinct
@@ -33,10 +33,21 @@ Theorem C13_outcome_depends_on_shape_only :
 Proof. exact @outcome_layout_free. Qed.
 Print Assumptions C13_outcome_depends_on_shape_only.
 
-(* Partial: the inputs (data, axes, query arrays) are logical arrays in the model, so their
-   layout independence is a property of ndarray's indexing (index_axis, Zip, indexed_iter),
-   carried by the correspondence: every layout of data / axis / query is compared bitwise with
-   the owned C-order call on every run. *)
+(* query arrays: read through their own offset / strides in logical order; two query views of the same
+   shape holding the same logical array give the same outcome and the same memory *)
+Theorem C13_query_layout_free :
+  forall (T : Type) (F : T -> outcome (list T)) (trail : list nat)
+         (q1 q2 : view) (qm1 qm2 : @mem T) (buffer : view) (m : @mem T),
+    v_shape q1 = v_shape q2 ->
+    (forall idx, In idx (indices (v_shape q1)) -> qm1 (addr q1 idx) = qm2 (addr q2 idx)) ->
+    interp_array_into_v F trail q1 qm1 buffer m = interp_array_into_v F trail q2 qm2 buffer m.
+Proof. exact @query_layout_free. Qed.
+Print Assumptions C13_query_layout_free.
+
+(* Partial: that the CODE reads its data, axes and query arrays in logical order (index_axis, Zip,
+   indexed_iter, never as_slice_memory_order) is carried by the correspondence: every layout of data /
+   axis / query (x and y independently in 2-D) is compared bitwise with the owned C-order call on every
+   run. *)
 
 Example C13_ex :  (* C order and Fortran order buffers hold the same logical result *)
   let F := fun x : Z => Ok [x; (x * 2)%Z; (x * 3)%Z] in
